@@ -736,4 +736,45 @@ def build():
         ensures={"wraps_the_functions_own_value": "is_tag(result, 'not-memorized-result') and is_tag(result.value, 'plain-result')"},
         ensures_body={"called_once_with_the_callers_arguments": "n_events('plain-call') == 1 and ev_named('plain-call')[0][1] == args"},
     ))
+    # ------------------------------------------------------------------ Memory.cache: what the wrapper is built from
+    def new_wrapper(kind):
+        def h(interp, args, kwargs):
+            interp.ctx.events.append(("new-" + kind, args[0] if args else None, dict(kwargs)))
+            return Opaque(kind, None)
+        return h
+
+    for cname in ("MemorizedFunc", "NotMemorizedFunc", "AsyncMemorizedFunc", "AsyncNotMemorizedFunc"):
+        p.models["new:" + cname] = new_wrapper(cname)
+    p.models["asyncio.iscoroutinefunction"] = lambda i, a, k: False   # plain functions (the async wrappers mirror the plain ones)
+    p.models["functools.partial"] = lambda i, a, k: (i.ctx.events.append(("partial", a[0], dict(k))), Opaque("partial", None))[1]
+    p.models["builtin:callable"] = lambda i, a, k: not (isinstance(a[0], Opaque) and a[0].tag == "not-callable")
+    p.spec_funcs["kw"] = lambda interp, ev_name, key: [e for e in interp.ctx.events if e[0] == ev_name][0][2].get(key, Opaque("missing", None))
+    memory_obj = lambda **over: ObjOf("Memory", **dict(dict(store_backend=OneOf(None, OpaqueOf("storebackend")), backend="local", compress=OneOf(False, True, 3), mmap_mode=OneOf(None, "r", "c"),
+                                                            _verbose=INT, timestamp=REAL), **over))
+    p.add(Contract(
+        MEM, "Memory.cache", variant="function-given", props=["C02", "C06", "C12"],
+        params=dict(self=memory_obj(), func=OpaqueOf("userfunc", isinstance=()), ignore=OneOf(None, OpaqueOf("ignorelist")), verbose=OneOf(None, INT), mmap_mode=OneOf(False, None, "r"),
+                    cache_validation_callback=OneOf(None, OpaqueOf("cvc"), OpaqueOf("not-callable"))),
+        ensures={},
+        ensures_body={
+            "without_a_store_the_plain_function_is_wrapped_unchanged": "implies(self.store_backend is None and n_events('new-NotMemorizedFunc') == 1, ev_named('new-NotMemorizedFunc')[0][1] is func)",
+            "caching_wrapper_iff_there_is_a_store": "(n_events('new-MemorizedFunc') == 1) == (self.store_backend is not None) and n_events('new-MemorizedFunc') + n_events('new-NotMemorizedFunc') == 1",
+            "wrapper_built_on_this_memorys_store_with_the_callers_options":
+                "implies(n_events('new-MemorizedFunc') == 1, ev_named('new-MemorizedFunc')[0][1] is func and kw('new-MemorizedFunc', 'location') is self.store_backend "
+                "and kw('new-MemorizedFunc', 'ignore') is ignore and kw('new-MemorizedFunc', 'cache_validation_callback') is cache_validation_callback "
+                "and kw('new-MemorizedFunc', 'compress') is self.compress and kw('new-MemorizedFunc', 'timestamp') is self.timestamp)",
+            "explicit_options_win_over_the_memorys_defaults":
+                "implies(n_events('new-MemorizedFunc') == 1, (kw('new-MemorizedFunc', 'mmap_mode') is (self.mmap_mode if mmap_mode is False else mmap_mode)) "
+                "and (kw('new-MemorizedFunc', 'verbose') is (self._verbose if verbose is None else verbose)))",
+        },
+        exsures={"ValueError": {"only_for_a_validation_callback_that_is_not_callable": "is_tag(cache_validation_callback, 'not-callable')"}},
+    ))
+    p.add(Contract(
+        MEM, "Memory.cache", variant="decorator-with-options", props=["C02", "C06"],
+        params=dict(self=memory_obj(), func=None, ignore=OneOf(None, OpaqueOf("ignorelist")), verbose=OneOf(None, INT), mmap_mode=OneOf(False, None, "r"),
+                    cache_validation_callback=OneOf(None, OpaqueOf("cvc"))),
+        ensures={"a_partial_application_of_cache": "is_tag(result, 'partial')"},
+        ensures_body={"every_option_is_carried_over": "n_events('partial') == 1 and kw('partial', 'ignore') is ignore and kw('partial', 'mmap_mode') is mmap_mode and kw('partial', 'verbose') is verbose "
+                                                      "and kw('partial', 'cache_validation_callback') is cache_validation_callback"},
+    ))
     return p
